@@ -113,6 +113,12 @@ def mixed_world(n_chr=4, groups=True, multimappers=True):
             nm = name("mmi", "gA")
             reads.append(read_of(nm, c2, exons(1000, [0, 2, 3, 4])))
             reads.append(read_of(nm, c1, exons(8000, [0, 1, 2]), secondary=True))
+        # multi-mappers whose alignments all lie on ONE chromosome (primary in the gene, secondary in the unannotated locus)
+        for ci in range(n_chr):
+            c = "chr%d" % (ci + 1)
+            nm = name("mms", "gB")
+            reads.append(read_of(nm, c, exons(1000, [0, 1, 2, 3, 4])))
+            reads.append(read_of(nm, c, exons(8000, [0, 1, 2]), secondary=True))
     reads.append({"name": "unm_1", "unmapped": True})
     syn.plant_for_transcripts(w)
     dedup_sites(w)
